@@ -137,6 +137,7 @@ theorem inv_step (s : LState) (e : Ev) (h : Inv s) : Inv (step s e) := by
     split
     · rename_i hm; exact drop_inv s id h hm
     · exact h
+  | writeFail id => exact h
 
 theorem inv_run (evs : List Ev) : Inv (run evs) := by
   unfold run
@@ -185,6 +186,7 @@ theorem step_peers_sub (s : LState) (e : Ev) (id : Nat) (h : id ∈ (step s e).p
   | expire j => simp only [step] at h; split at h
                 · exact Or.inl (List.mem_of_mem_erase h)
                 · exact Or.inl h
+  | writeFail j => exact Or.inl h
 
 theorem leave_removes (s : LState) (id : Nat) (hs : Inv s) (e : Ev) (he : e = .gone id ∨ e = .expire id) : id ∉ (step s e).peers := by
   rcases he with rfl | rfl <;>
@@ -212,11 +214,17 @@ theorem stays_gone (evs more : List Ev) (id : Nat) (h : id ∈ (run evs).release
       | expire j => simp only [step]; split
                     · exact List.mem_append_left _ hs
                     · exact hs
+      | writeFail j => exact hs
   have : id ∈ (run (evs ++ more)).released := by
     unfold run; rw [List.foldl_append]; exact hrel more _ h
   exact gone_not_registered _ id this
 
+/-- T4: a write that fails because the peer is gone releases nothing and tells the handler nothing: the connection
+    leaves through the read side only (one release path per way of leaving). -/
+theorem write_failure_releases_nothing (s : LState) (id : Nat) : step s (.writeFail id) = s := rfl
+
 /-! ### Non-vacuity (tests) -/
+example : callsOf (run [.accept 1, .data 1, .writeFail 1, .writeFail 1, .gone 1]) 1 = [.conn, .input, .disc] := by decide
 example : callsOf (run [.accept 1, .data 1, .accept 2, .data 1, .gone 1, .data 1, .expire 1, .expire 2]) 1 = [.conn, .input, .input, .disc] := by decide
 example : (run [.accept 1, .data 1, .accept 2, .data 1, .gone 1, .data 1, .expire 1, .expire 2]).peers = [] := by decide
 
